@@ -30,7 +30,7 @@ INT_TAG = 'tag:yaml.org,2002:int'
 
 def bounds(tier, seed):
     q = tier == 'quick'
-    return {'history_length_all_roots': 2 if q else 3, 'history_length_deep_roots': 3 if q else 4, 'deep_roots': ['SafeLoader', 'Loader', 'Dumper', 'SafeDumper'],
+    return {'history_length_full_alphabet_rotating_root': 3 if q else None, 'history_length_all_roots': 2 if q else 3, 'history_length_deep_roots': 3 if q else 4, 'deep_roots': ['SafeLoader', 'Loader', 'Dumper', 'SafeDumper'],
             'deep_event_subset': 'the deeper histories use the lattice events only (no module-level helpers, no wildcard/path resolvers, one YAMLObject variant)'}
 
 
@@ -559,6 +559,13 @@ def plan(tier, seed):
         evs = events_for(root in SHIPPED_LOADERS)
         for i, e in enumerate(evs):
             jobs.append(('hist', root, i, 2 if q else 3, False))
+    if q:
+        # the full event alphabet at depth 3 for one root, rotated by the seed (all roots at depth 3 in thorough)
+        allroots = LOADER_ROOTS + DUMPER_ROOTS
+        root = allroots[seed % len(allroots)]
+        evs = events_for(root in SHIPPED_LOADERS)
+        for i, e in enumerate(evs):
+            jobs.append(('hist', root, i, 3, False))
     for root in ['SafeLoader', 'Loader', 'Dumper', 'SafeDumper']:
         evs = events_for(root in SHIPPED_LOADERS, True)
         for i, e in enumerate(evs):
